@@ -91,6 +91,10 @@ func CloneTo[T any](maybeSelf MaybeDef[T], dest T) MaybeDef[T] {
 		y := reflect.New(starX.Type())
 		starY := y.Elem()
 		starY.Set(starX)
+		if IsNil(dest) {
+			// No target to copy into (Clone passes the zero value): the fresh copy is the result
+			return JustGenerics(y.Convert(x.Type()).Interface().(T))
+		}
 		reflect.ValueOf(dest).Elem().Set(y.Elem())
 		return JustGenerics(dest)
 	}
